@@ -475,6 +475,7 @@ pub open spec fn nz(s: Seq<u32>) -> Seq<u32>
     decreases s.len()
 { if s.len() == 0 { Seq::empty() } else if s.last() != 0 { nz(s.drop_last()).push(s.last()) } else { nz(s.drop_last()) } }
 pub open spec fn strictly_increasing(s: Seq<u32>) -> bool { forall|i: int, j: int| 0 <= i < j < s.len() ==> s[i] < s[j] }
+pub open spec fn pairwise_distinct(s: Seq<u32>) -> bool { forall|i: int, j: int| 0 <= i < j < s.len() ==> s[i] != s[j] }
 pub proof fn lemma_lvl_pos(initial: int, k: nat)
     requires initial >= 0,
     ensures lvl(initial, k) >= 0, initial > 0 ==> lvl(initial, k) > 0,
@@ -530,7 +531,11 @@ pub proof fn lemma_nz_members(s: Seq<u32>)
     requires
         [[L: zoomlist/pre_automatic_levels_fit_u32_else_overflow]]
         options.manual_zoom_sizes is None ==> lvl(options.initial_zoom_size as int, options.max_zooms as nat) <= u32::MAX,
+        [[L: zoomlist/pre_manual_sizes_pairwise_distinct_else_writer_task_panics]]
+        options.manual_zoom_sizes matches Some(z) ==> pairwise_distinct(nz(z@)),
     ensures
+        [[L: zoomlist/levels_pairwise_distinct_one_writer_slot_each]]
+        pairwise_distinct(r@),
         [[L: zoomlist/manual_list_kept_in_order_without_zeros]]
         options.manual_zoom_sizes matches Some(z) ==> r@ == nz(z@),
         [[L: zoomlist/automatic_levels_are_initial_times_4_pow_k]]
